@@ -108,7 +108,7 @@ def _rand_op(rng, n):
     if r < 0.52:
         L = rng.choice([1, n, rng.randint(1, n)])
         return {"op": "readrange", "L": L, "off": off, "fwd": rng.random() < 0.5,
-                "offkind": rng.choice(["int", "tu", "td"])}
+                "offkind": rng.choice(["int", "tu", "td"]), "offdtype": rng.choice(["int64", "int64", "int32", "int16", "uint8"])}
     if r < 0.72:
         L = rng.choice([1, n, rng.randint(1, n)])
         ok = rng.choice(["int", "tu", "td"])
@@ -117,7 +117,7 @@ def _rand_op(rng, n):
         if od == "foreign" and ok == "int" and not ip:
             od = "same"  # documented dtype promotion of the non-in-place scalar-offset splice: not asserted
         return {"op": "writerange", "L": L, "off": off, "fwd": rng.random() < 0.5, "offkind": ok,
-                "inplace": ip, "od": od}
+                "inplace": ip, "od": od, "offdtype": rng.choice(["int64", "int64", "int32", "int16", "uint8"])}
     if r < 0.78:
         return {"op": "incr", "pos": rng.choice([0, 1, 1, 2, n, rng.randint(0, 2 * n)])}
     if r < 0.84:
@@ -345,6 +345,10 @@ def _apply(ctx, rt, model, ids, op, desc, sdt=None):
         else:
             moff = _offset_tensor(op["offkind"], op["off"], shape, n)
             ioff = torch.from_numpy(moff.copy())
+            if op.get("offdtype", "int64") != "int64":
+                # any integer tensor is an offset tensor: the values (0 .. 2N) fit every one of these types
+                ioff = ioff.to({"int32": torch.int32, "int16": torch.int16, "uint8": torch.uint8}[op["offdtype"]])
+                ctx.count("range_ops_with_narrow_integer_offset_tensors")
         span = "L=N" if L == n else "L<N"
         tag = f"{'scalar' if op['offkind'] == 'int' else 'tensor'}_offset.{span}.{'fwd' if op['fwd'] else 'bwd'}"
         if k == "readrange":
